@@ -317,8 +317,8 @@ Proof. exact accept_rewritten. Qed.
 Print Assumptions C05_accept_rewritten.
 
 (* ---- input forms and sessions ---- *)
-(* Netlist(x) takes a tree, a YAML text (a str containing ': '), the name of a
-   file, or anything else (refused).  [yaml_load] / [file_text] stand for the
+(* Netlist(x) takes a tree, a YAML text (a str containing ': ' or a line break),
+   the name of a file, an open text stream, or anything else (refused).  [yaml_load] / [file_text] stand for the
    text layer (ruamel, the file system); nothing is assumed about them.
    Whatever the form, a design is loaded only if read_netlist loads the tree
    the source stands for - so every rejection theorem above holds for every
@@ -328,8 +328,9 @@ Theorem C05_source_loaded_inv : forall sqrt_o yaml_load file_text e src n,
   exists t, read_netlist sqrt_o e t = Ok n /\
     match src with
     | SrcTree t' => t' = t
-    | SrcStr s => exists txt, (if has_colon_space s then Some s else file_text s) = Some txt /\
+    | SrcStr s => exists txt, (if is_text s then Some s else file_text s) = Some txt /\
                               yaml_load txt = Some t
+    | SrcStream txt => yaml_load txt = Some t
     | SrcOther => False
     end.
 Proof. exact source_loaded_inv. Qed.
